@@ -447,4 +447,538 @@ theorem error_branch (cfg : SafeCfg) (tbl : Nat → Str) (digest : Str → Str) 
       rw [hr]
       simp [hw, hs']
 
+/-! ### get_filename: helper lemmas -/
+
+theorem spanP_append (p : Nat → Bool) (s : Str) : (spanP p s).1 ++ (spanP p s).2 = s := by
+  induction s with
+  | nil => rfl
+  | cons c t ih =>
+    unfold spanP
+    split <;> simp [ih]
+
+theorem cut1_notfound {s : Str} {sep : Nat} (h : (cut1 s sep).2.1 = false) :
+    s = (cut1 s sep).1 ∧ (cut1 s sep).2.2 = [] := by
+  unfold cut1 at h ⊢
+  split at h
+  · rename_i a heq
+    have := spanP_append (· != sep) s
+    rw [heq] at this
+    simp at this
+    exact ⟨this.symm, rfl⟩
+  · simp at h
+
+theorem hostnameOf_ne_nil {nl h : Str} (hh : hostnameOf nl = some h) : h ≠ [] := by
+  unfold hostnameOf at hh
+  simp only at hh
+  split at hh
+  · cases hh
+  · rename_i hne
+    simp only [Option.some.injEq] at hh
+    intro hnil
+    rw [hnil] at hh
+    simp only [List.append_eq_nil_iff, List.map_eq_nil_iff] at hh
+    obtain ⟨⟨h1, h2⟩, h3⟩ := hh
+    have hf : (cut1 (hostinfo nl).1 37).2.1 = false := by
+      cases hb : (cut1 (hostinfo nl).1 37).2.1
+      · rfl
+      · simp [hb] at h2
+    have := (cut1_notfound hf).1
+    rw [h1] at this
+    simp [this] at hne
+
+/-- every string entry of a part list is non-empty -/
+def AllNonempty (ps : List (Option Str)) : Prop := ∀ p, some p ∈ ps → p ≠ []
+
+theorem pctGo_ne_nil (s : Str) :
+    pctGo .p s ≠ [] ∧ (∀ a, pctGo (.ph a) s ≠ []) ∧ (s ≠ [] → pctGo .n s ≠ []) := by
+  induction s with
+  | nil => simp [pctGo]
+  | cons c t ih =>
+    obtain ⟨ih1, ih2, _⟩ := ih
+    refine ⟨?_, ?_, ?_⟩
+    · unfold pctGo; split
+      · exact ih2 c
+      · simp
+    · intro a; unfold pctGo; split <;> simp
+    · intro _; unfold pctGo; split
+      · exact ih1
+      · simp
+
+theorem decode_ne_nil (items : List Item) :
+    (∀ p, decode (some p) items ≠ []) ∧ (items ≠ [] → decode none items ≠ []) := by
+  induction items with
+  | nil => simp [decode]
+  | cons i t ih =>
+    obtain ⟨ih1, _⟩ := ih
+    cases i with
+    | char c => simp [decode]
+    | byte b =>
+      refine ⟨?_, ?_⟩
+      · intro p
+        unfold decode
+        split
+        · split
+          · simp
+          · exact ih1 _
+        · simp
+      · intro _
+        unfold decode
+        split
+        · simp
+        · exact ih1 _
+
+/-- `urllib.parse.unquote` never returns the empty string for a non-empty one -/
+theorem unquote_ne_nil {s : Str} (h : s ≠ []) : unquote s ≠ [] := by
+  unfold unquote
+  split
+  · exact (decode_ne_nil _).2 ((pctGo_ne_nil s).2.2 h)
+  · exact h
+
+theorem unquoteAll_nonempty : ∀ (ps qs : List (Option Str)), unquoteAll ps = .ok qs →
+    AllNonempty ps → AllNonempty qs := by
+  intro ps
+  induction ps with
+  | nil => intro qs h _; simp [unquoteAll] at h; subst h; intro p hp; simp at hp
+  | cons o rest ih =>
+    intro qs h hne
+    cases o with
+    | none => simp [unquoteAll] at h
+    | some p =>
+      unfold unquoteAll at h
+      split at h
+      · cases h
+      · rename_i rs hrs
+        cases h
+        intro q hq
+        simp only [List.mem_cons, Option.some.injEq] at hq
+        rcases hq with rfl | hq
+        · exact unquote_ne_nil (hne p (by simp))
+        · exact ih rs hrs (fun x hx => hne x (by simp [hx])) q hq
+
+theorem urlsplitRest_scheme {ext : Ext} {sc u : Str} {sp : Split}
+    (h : urlsplitRest ext sc u = .ok sp) : sp.scheme = sc := by
+  unfold urlsplitRest at h
+  split at h
+  · cases h
+  · cases h; rfl
+
+theorem unquoteAll_length : ∀ (ps qs : List (Option Str)), unquoteAll ps = .ok qs → qs.length = ps.length := by
+  intro ps
+  induction ps with
+  | nil => intro qs h; simp [unquoteAll] at h; subst h; rfl
+  | cons o rest ih =>
+    intro qs h
+    cases o with
+    | none => simp [unquoteAll] at h
+    | some p =>
+      unfold unquoteAll at h
+      split at h
+      · cases h
+      · rename_i rs hrs
+        cases h
+        simp [ih rs hrs]
+
+theorem urlToDirParts_nonempty {ext : Ext} {url : Str} {proto host alt : Bool} {ps : List (Option Str)}
+    (h : urlToDirParts ext url proto host alt = .ok ps)
+    (hs : proto = true → ∀ sp, urlsplit ext url = .ok sp → sp.scheme ≠ []) : AllNonempty ps := by
+  unfold urlToDirParts at h
+  split at h
+  · cases h
+  · rename_i sp hsp
+    simp only at h
+    split at h
+    · cases h
+    · rename_i p2 hp2
+      have hparts : AllNonempty ((if proto = true then [some sp.scheme] else []) ++ p2 ++
+          List.map some (List.filter (fun x => !x.isEmpty) (splitOn1 sp.path 47))) := by
+        intro p hp
+        simp only [List.mem_append, List.mem_map, List.mem_filter] at hp
+        rcases hp with (hp | hp) | hp
+        · split at hp
+          · rename_i hproto
+            simp at hp; subst hp
+            exact hs hproto sp hsp
+          · simp at hp
+        · split at hp2
+          · split at hp2
+            · cases hp2
+            · cases hp2
+              simp at hp; subst hp
+              simp
+            · cases hp2
+              simp at hp
+              exact hostnameOf_ne_nil hp.symm
+          · cases hp2; simp at hp
+        · obtain ⟨a, ⟨_, ha⟩, hap⟩ := hp
+          cases hap
+          simpa using ha
+      cases h
+      generalize ((if proto = true then [some sp.scheme] else []) ++ p2 ++
+          List.map some (List.filter (fun x => !x.isEmpty) (splitOn1 sp.path 47))) = P at hparts ⊢
+      split
+      · intro p hp
+        exact hparts p ((List.dropLast_sublist _).subset hp)
+      · exact hparts
+
+theorem urlToFilename_ne_nil {ext : Ext} {url index f : Str} {alt : Bool}
+    (h : urlToFilename ext url index alt = .ok f) (hi : index ≠ []) : f ≠ [] := by
+  unfold urlToFilename at h
+  split at h
+  · cases h
+  · cases h
+    split
+    · split
+      · exact hi
+      · rename_i hne; simpa using hne
+    · simp
+
+theorem listingName_ne_nil : listingName ≠ [] := by decide
+
+theorem rawParts_nonempty {cfg : NamerCfg} {ext : Ext} {isFtp : Bool} {url : Str} {ps : List (Option Str)}
+    (h : rawParts cfg ext isFtp url = .ok ps) (hi : cfg.index ≠ [])
+    (hs : cfg.protocol = true → ∀ sp, urlsplit ext url = .ok sp → sp.scheme ≠ []) :
+    AllNonempty ps ∧ ps ≠ [] := by
+  unfold rawParts at h
+  simp only at h
+  split at h
+  · cases h
+  · rename_i dirs hdirs
+    have hd : AllNonempty dirs := by
+      split at hdirs
+      · split at hdirs
+        · cases hdirs
+        · rename_i d hd
+          cases hdirs
+          intro p hp
+          exact urlToDirParts_nonempty hd hs p (List.mem_of_mem_drop hp)
+      · cases hdirs; intro p hp; simp at hp
+    split at h
+    · cases h
+    · rename_i f hf
+      have hfne : f ≠ [] := by
+        cases isFtp
+        · exact urlToFilename_ne_nil (by simpa using hf) hi
+        · exact urlToFilename_ne_nil (by simpa using hf) listingName_ne_nil
+      have hall : AllNonempty (dirs ++ [some f]) := by
+        intro p hp
+        simp only [List.mem_append, List.mem_singleton, Option.some.injEq] at hp
+        rcases hp with hp | rfl
+        · exact hd p hp
+        · exact hfne
+      split at h
+      · refine ⟨unquoteAll_nonempty _ _ h hall, ?_⟩
+        intro hnil
+        have := unquoteAll_length _ _ h
+        rw [hnil] at this
+        simp at this
+      · cases h
+        exact ⟨hall, by simp⟩
+
+theorem safeAll_safe {cfg : SafeCfg} {tbl : Nat → Str} {sha : Str → Str}
+    (hos : cfg.os ≠ .other) (ht : TableSane tbl) (hd : ShaSane sha) :
+    ∀ (ps : List (Option Str)) (rs : List Str), safeAll cfg tbl sha ps = .ok rs → AllNonempty ps →
+      rs.length = ps.length ∧
+      ∀ r ∈ rs, SafeComponent cfg.noControl r ∧ (cfg.os = .windows → ∀ c ∈ r, c ∉ winChars) := by
+  intro ps
+  induction ps with
+  | nil => intro rs h _; simp [safeAll] at h; subst h; simp
+  | cons o rest ih =>
+    intro rs h hne
+    cases o with
+    | none => simp [safeAll] at h
+    | some p =>
+      unfold safeAll at h
+      split at h
+      · cases h
+      · rename_i r hr
+        split at h
+        · cases h
+        · rename_i rs' hrs
+          cases h
+          obtain ⟨hl, hall⟩ := ih rs' hrs (fun x hx => hne x (by simp [hx]))
+          refine ⟨by simp [hl], ?_⟩
+          intro x hx
+          simp only [List.mem_cons] at hx
+          rcases hx with rfl | hx
+          · exact safe_component cfg tbl sha p _ hos ht hd (hne p (by simp)) hr
+          · exact hall x hx
+
+/-! ### posixpath.join over safe components -/
+
+/-- the directory prefix as `os.path.join` continues it: `root`, plus a "/" unless
+`root` is empty or already ends with one -/
+def rootPrefix (root : Str) : Str :=
+  if root.isEmpty || root.getLast? == some 47 then root else root ++ [47]
+
+theorem head_ne_of_not_mem {b : Str} (h : 47 ∉ b) : b.head? ≠ some 47 := by
+  cases b with
+  | nil => simp
+  | cons c t => simp at h ⊢; omega
+
+theorem joinOne_clean (path b : Str) (hb : 47 ∉ b) : joinOne path b = rootPrefix path ++ b := by
+  have := head_ne_of_not_mem hb
+  unfold joinOne rootPrefix
+  split
+  · rename_i h; simp at h; exact absurd h this
+  · split <;> simp
+
+theorem getLast_ne_of_not_mem {d : Str} (h : 47 ∉ d) : d.getLast? ≠ some 47 := by
+  intro hl
+  obtain ⟨ys, hy⟩ := List.getLast?_eq_some_iff.mp hl
+  rw [hy] at h; simp at h
+
+theorem foldl_joinOne (cs : List Str) (hcs : ∀ d ∈ cs, d ≠ [] ∧ 47 ∉ d) :
+    ∀ acc : Str, acc ≠ [] → acc.getLast? ≠ some 47 →
+      cs.foldl joinOne acc = acc ++ cs.flatMap (fun d => 47 :: d) := by
+  induction cs with
+  | nil => intro acc _ _; simp
+  | cons d rest ih =>
+    intro acc hne hl
+    obtain ⟨hd0, hd47⟩ := hcs d (by simp)
+    have hstep : joinOne acc d = acc ++ [47] ++ d := by
+      rw [joinOne_clean acc d hd47]
+      unfold rootPrefix
+      split
+      · rename_i h
+        simp at h
+        rcases h with h | h
+        · exact absurd h hne
+        · exact absurd h hl
+      · rfl
+    simp only [List.foldl_cons, hstep, List.flatMap_cons]
+    rw [ih (fun x hx => hcs x (by simp [hx]))]
+    · simp
+    · simp
+    · rw [List.getLast?_append]
+      cases hdl : d.getLast? with
+      | none => exact absurd (List.getLast?_eq_none_iff.mp hdl) hd0
+      | some x =>
+        simp
+        intro hx; subst hx
+        exact getLast_ne_of_not_mem hd47 hdl
+
+theorem joinWith_cons (c : Str) (cs : List Str) :
+    joinWith [47] (c :: cs) = c ++ cs.flatMap (fun d => 47 :: d) := by
+  induction cs generalizing c with
+  | nil => simp [joinWith]
+  | cons d rest ih => simp [joinWith, ih d]
+
+/-- `os.path.join(root, *comps)` for components without "/": the prefix, then the
+components separated by single slashes -/
+theorem posixJoin_safe (root : Str) (c : Str) (cs : List Str)
+    (hcs : ∀ d ∈ c :: cs, d ≠ [] ∧ 47 ∉ d) :
+    posixJoin root (c :: cs) = rootPrefix root ++ joinWith [47] (c :: cs) := by
+  obtain ⟨hc0, hc47⟩ := hcs c (by simp)
+  unfold posixJoin
+  simp only [List.foldl_cons]
+  rw [joinOne_clean root c hc47, joinWith_cons]
+  rw [foldl_joinOne cs (fun x hx => hcs x (by simp [hx]))]
+  · simp
+  · simp [hc0]
+  · rw [List.getLast?_append]
+    cases hdl : c.getLast? with
+    | none => exact absurd (List.getLast?_eq_none_iff.mp hdl) hc0
+    | some x =>
+      simp
+      intro hx; subst hx
+      exact getLast_ne_of_not_mem hc47 hdl
+
+theorem go_append (a : Str) (h : 47 ∉ a) : ∀ (rest acc : Str),
+    splitOn1.go 47 (a ++ rest) acc = splitOn1.go 47 rest (a.reverse ++ acc) := by
+  induction a with
+  | nil => intro rest acc; simp
+  | cons c t ih =>
+    intro rest acc
+    simp at h
+    have hc : (c == 47) = false := by simp; omega
+    simp [splitOn1.go, hc]
+    exact ih h.2 rest (c :: acc)
+
+/-- splitting the joined components at "/" gives the components back: they are
+exactly the path components below the prefix -/
+theorem splitOn1_joinWith (c : Str) (cs : List Str) (hcs : ∀ d ∈ c :: cs, 47 ∉ d) :
+    splitOn1 (joinWith [47] (c :: cs)) 47 = c :: cs := by
+  induction cs generalizing c with
+  | nil =>
+    have := go_append c (hcs c (by simp)) [] []
+    simp [joinWith, splitOn1, splitOn1.go] at this ⊢
+    exact this
+  | cons d rest ih =>
+    have h1 := go_append c (hcs c (by simp)) ([47] ++ joinWith [47] (d :: rest)) []
+    have h2 := ih d (fun x hx => hcs x (by simp at hx ⊢; right; exact hx))
+    simp only [joinWith, splitOn1] at h1 h2 ⊢
+    rw [List.append_assoc, h1]
+    simp [splitOn1.go, h2]
+
+/-! ### the scheme of a canonical URL -/
+
+/-- the url handed to `get_filename` begins with `<scheme>://` (`URLInfo.url` of a
+network scheme: http, https, ftp, …) -/
+def HasScheme (url : Str) : Prop :=
+  ∃ c t rest, url = (c :: t) ++ lit "://" ++ rest ∧ isAsciiAlpha c = true ∧ (c :: t).all isSchemeChar = true
+
+theorem spanP_stop (p : Nat → Bool) (s : Str) (y : Nat) (R : Str) (hs : ∀ x ∈ s, p x = true) (hy : p y = false) :
+    spanP p (s ++ y :: R) = (s, y :: R) := by
+  induction s with
+  | nil => simp [spanP, hy]
+  | cons c t ih =>
+    have := ih (fun x hx => hs x (by simp [hx]))
+    simp [spanP, hs c (by simp), this]
+
+theorem schemeChar_facts {x : Nat} (h : isSchemeChar x = true) : 32 < x ∧ x ≠ 58 ∧ x ≠ 9 ∧ x ≠ 10 ∧ x ≠ 13 := by
+  simp [isSchemeChar, isAsciiAlpha, isAsciiUpper, isAsciiLower, isAsciiDigit] at h
+  omega
+
+theorem splitScheme_of_hasScheme {url : Str} (hu : HasScheme url) : (splitScheme (cleanUrl url)).1 ≠ [] := by
+  obtain ⟨c, t, rest, rfl, hc, hall⟩ := hu
+  have hall' : ∀ x ∈ c :: t, isSchemeChar x = true := by simpa using hall
+  have hclean : cleanUrl ((c :: t) ++ lit "://" ++ rest) =
+      (c :: t) ++ 58 :: List.filter (fun c => c != 9 && c != 10 && c != 13) (47 :: 47 :: rest) := by
+    have hc32 : ¬ (c ≤ 32) := by have := (schemeChar_facts (hall' c (by simp))).1; omega
+    unfold cleanUrl
+    rw [show (c :: t) ++ lit "://" ++ rest = c :: (t ++ lit "://" ++ rest) by simp]
+    rw [List.dropWhile_cons_of_neg (by simpa using hc32)]
+    rw [show c :: (t ++ lit "://" ++ rest) = (c :: t) ++ (58 :: 47 :: 47 :: rest) by simp [lit]]
+    rw [List.filter_append]
+    congr 1
+    · apply List.filter_eq_self.mpr
+      intro x hx
+      have := schemeChar_facts (hall' x hx)
+      simp; omega
+  rw [hclean]
+  have hspan := spanP_stop (· != 58) (c :: t) 58
+    (List.filter (fun c => c != 9 && c != 10 && c != 13) (47 :: 47 :: rest))
+    (fun x hx => by have := schemeChar_facts (hall' x hx); simp; omega) (by simp)
+  unfold splitScheme cut1
+  rw [hspan]
+  simp [hc, hall]
+
+theorem urlsplit_scheme_ne_nil {ext : Ext} {url : Str} {sp : Split} (hu : HasScheme url)
+    (h : urlsplit ext url = .ok sp) : sp.scheme ≠ [] := by
+  unfold urlsplit at h
+  rw [urlsplitRest_scheme h]
+  exact splitScheme_of_hasScheme hu
+
+/-! ## property theorems (continued) -/
+
+/-- **get_filename_contained** (DESIGN.md C15, T).  For every namer configuration
+(root, non-empty index name, use_dir, cut, protocol / host directories, os_type unix
+or windows, control / ASCII restriction, case, length limit), every url that starts
+with `<scheme>://` — http and ftp alike, `isFtp` arbitrary —, every verdict of the
+library checks, every sane case table and hash: if `get_filename` returns a path `p`
+at all, then `p` is the directory prefix followed by one or more components
+separated by single slashes, splitting the part below the prefix at "/" gives back
+exactly these components, and every one of them is a safe component (non-empty,
+not "." or "..", no "/", no C0 control unless nocontrol, no Windows-reserved
+character in Windows mode). -/
+theorem get_filename_contained (cfg : NamerCfg) (tbl : Nat → Str) (sha : Str → Str) (ext : Ext)
+    (isFtp : Bool) (url p : Str)
+    (hos : cfg.safe.os ≠ .other) (ht : TableSane tbl) (hd : ShaSane sha)
+    (hi : cfg.index ≠ []) (hu : HasScheme url)
+    (h : getFilename cfg tbl sha ext isFtp url = .ok p) :
+    ∃ comps : List Str, comps ≠ [] ∧
+      p = rootPrefix cfg.root ++ joinWith [47] comps ∧
+      splitOn1 (joinWith [47] comps) 47 = comps ∧
+      ∀ r ∈ comps, SafeComponent cfg.safe.noControl r ∧
+        (cfg.safe.os = .windows → ∀ c ∈ r, c ∉ winChars) := by
+  unfold getFilename at h
+  split at h
+  · cases h
+  · rename_i comps hcomps
+    cases h
+    unfold components at hcomps
+    split at hcomps
+    · cases hcomps
+    · rename_i parts hparts
+      obtain ⟨hne, hnil⟩ := rawParts_nonempty hparts hi (fun _ sp hsp => urlsplit_scheme_ne_nil hu hsp)
+      obtain ⟨hlen, hsafe⟩ := safeAll_safe hos ht hd parts comps hcomps hne
+      have hcne : comps ≠ [] := by
+        intro hc; rw [hc] at hlen; simp at hlen
+        exact hnil (List.eq_nil_of_length_eq_zero hlen.symm)
+      cases comps with
+      | nil => exact absurd rfl hcne
+      | cons c cs =>
+        have h47 : ∀ d ∈ c :: cs, d ≠ [] ∧ 47 ∉ d := fun d hd' =>
+          ⟨(hsafe d hd').1.1, (hsafe d hd').1.2.2.2.1⟩
+        exact ⟨c :: cs, hcne, posixJoin_safe cfg.root c cs h47,
+          splitOn1_joinWith c cs (fun d hd' => (h47 d hd').2), hsafe⟩
+
+/-- **content_disposition_contained** (DESIGN.md C15, T).  For every value of the
+two regular-expression matches (hence every Content-Disposition header), every
+current file name, configuration, case table and hash: the rename either leaves
+the file name alone, or puts ONE safe component into the directory of the current
+file name (`posixpath.dirname`, continued by a single "/"). -/
+theorem content_disposition_contained (cfg : SafeCfg) (tbl : Nat → Str) (sha : Str → Str)
+    (cur : Str) (isHttp hasHeader : Bool) (m1 m2 : Option Str) (p : Str)
+    (hos : cfg.os ≠ .other) (ht : TableSane tbl) (hd : ShaSane sha)
+    (h : renameCD cfg tbl sha cur isHttp hasHeader m1 m2 = .ok p) :
+    p = cur ∨ ∃ comp, p = rootPrefix (dirname cur) ++ comp ∧
+      SafeComponent cfg.noControl comp ∧ (cfg.os = .windows → ∀ c ∈ comp, c ∉ winChars) := by
+  unfold renameCD at h
+  split at h
+  · cases h; exact Or.inl rfl
+  · split at h
+    · cases h; exact Or.inl rfl
+    · rename_i f hf
+      split at h
+      · cases h; exact Or.inl rfl
+      · rename_i hfe
+        split at h
+        · cases h
+        · rename_i n hn
+          cases h
+          have hsafe := safe_component cfg tbl sha f n hos ht hd (by simpa using hfe) hn
+          exact Or.inr ⟨n, joinOne_clean _ n hsafe.1.2.2.2.1, hsafe⟩
+
+/-- The writer's anti-clobber suffixes (".f", ".d", ".1", ".html", …): appending a
+non-empty suffix of printable non-slash characters that does not end in a dot to a
+safe component gives a safe component. -/
+theorem safe_component_suffix (nc : Bool) (r suffix : Str) (hr : SafeComponent nc r)
+    (hs : ∀ c ∈ suffix, c ≠ 47 ∧ 32 ≤ c) (hlast : ∃ init l, suffix = init ++ [l] ∧ l ≠ 46) :
+    SafeComponent nc (r ++ suffix) := by
+  obtain ⟨h0, h1, h2, h47, hctl⟩ := hr
+  obtain ⟨init, l, rfl, hl⟩ := hlast
+  refine ⟨by simp, ?_, ?_, ?_, ?_⟩
+  · intro h
+    have := congrArg List.getLast? h
+    rw [← List.append_assoc, List.getLast?_concat] at this
+    simp [dot] at this; exact hl this
+  · intro h
+    have := congrArg List.getLast? h
+    rw [← List.append_assoc, List.getLast?_concat] at this
+    simp [dotdot] at this; exact hl this
+  · intro h
+    rcases List.mem_append.mp h with h | h
+    · exact h47 h
+    · exact (hs 47 h).1 rfl
+  · intro hnc c hc
+    rcases List.mem_append.mp hc with h | h
+    · exact hctl hnc c h
+    · exact (hs c h).2
+
+/-- The boundary of the `os_type` assumption: for any other string than "unix" /
+"windows" the separator is NOT escaped (the application never builds such a namer). -/
+theorem other_os_not_contained :
+    safeFilename ⟨.other, true, true, .none, 0⟩ (fun c => [c]) (fun _ => []) (lit "../x")
+      = .ok (lit "../x") := by decide
+
+/-! ## non-vacuity -/
+
+example : safeFilename ⟨.unix, true, true, .none, 0⟩ (fun c => [c]) (fun _ => []) (lit "..") = .ok (lit "%2E%2E") := by decide
+example : safeFilename ⟨.unix, true, true, .lower, 0⟩ (fun c => [c]) (fun _ => []) [97, 0, 233] = .ok (lit "a%00%c3%a9") := by decide
+example : safeFilename ⟨.unix, true, true, .none, 9⟩ (fun c => [c]) (fun _ => lit "0123456789abcdef") (lit "/////") = .ok (lit "%01234567") := by decide
+example : safeFilename ⟨.windows, true, false, .none, 0⟩ (fun c => [c]) (fun _ => []) (lit "a.") = .error .ValueError := by decide
+example : safeFilename ⟨.windows, true, false, .none, 0⟩ (fun c => [c]) (fun _ => []) [] = .error .IndexError := by decide
+example : safeFilename ⟨.unix, true, false, .none, 0⟩ (fun c => [c]) (fun _ => []) [0xD800] = .error .UnicodeEncodeError := by decide
+example : unquote (lit "%2E%2E%2Fa%FF") = [46, 46, 47, 97, 0xFFFD] := by decide
+example : getFilename ⟨⟨.unix, true, true, .none, 0⟩, lit "dl", lit "index.html", true, 0, false, true⟩
+    (fun c => [c]) (fun _ => []) ⟨true, true⟩ true (lit "ftp://h/a%2Fb/%2E%2E/")
+    = .ok (lit "dl/h/a%2Fb/%2E%2E/.listing") := by decide
+example : getFilename ⟨⟨.unix, true, true, .none, 0⟩, lit "dl", lit "index.html", true, 0, false, true⟩
+    (fun c => [c]) (fun _ => []) ⟨true, true⟩ false (lit "http://h:81/x/y?q=/")
+    = .ok (lit "dl/h:81/x/y/y?q=%2F") := by decide
+example : HasScheme (lit "ftp://h/a") := ⟨102, lit "tp", lit "h/a", by decide, by decide, by decide⟩
+example : renameCD ⟨.unix, true, true, .none, 0⟩ (fun c => [c]) (fun _ => []) (lit "dl/h/a.txt") true true
+    (some (lit "\"../../etc/passwd\"")) (some (lit "../../etc/passwd")) = .ok (lit "dl/h/..%2F..%2Fetc%2Fpasswd") := by decide
+
 end Wpull.Path
